@@ -1,6 +1,7 @@
 package props
 
 import (
+	"bytes"
 	"encoding/binary"
 	"encoding/json"
 	"fmt"
@@ -249,6 +250,47 @@ func genHostileFrame(t *rapid.T) (frame []byte, kind string) {
 		}
 		f, _ := tree.Bytes()
 		return f, "misplaced-property"
+	case k < 67: // a property repeated within one section (second occurrence empty, shorter or longer)
+		m, _, _, tree := genValidFrame(t, false)
+		secs := tree.PropSections()
+		if len(secs) == 0 {
+			tree = ref.Tree(&m, ref.Style{Form: 2})
+			secs = tree.PropSections()
+		}
+		if len(secs) == 0 {
+			f, _ := tree.Bytes()
+			return f, "valid"
+		}
+		si := rapid.IntRange(0, len(secs)-1).Draw(t, "section")
+		sec := secs[si]
+		scope := int(m.Type)
+		if sec.Name == "willprops" {
+			scope = 16
+		}
+		ids := ref.AllowedProps(scope)
+		id := ids[rapid.IntRange(0, len(ids)-1).Draw(t, "repid")]
+		firstLen := rapid.SampledFrom([]int{0, 1, 3, 6, 12, 40}).Draw(t, "firstlen")
+		secondLen := rapid.SampledFrom([]int{0, 0, 0, 1, 2, 50}).Draw(t, "secondlen")
+		first := ref.MakePropValue(id, bytes.Repeat([]byte{'r'}, firstLen), 7)
+		second := ref.MakePropValue(id, bytes.Repeat([]byte{'s'}, secondLen), 0)
+		// drop existing occurrences of id, then plant the pair; the second
+		// one is often the last property of the section
+		var kids []*ref.Node
+		for _, k := range sec.Kids {
+			if k.PropID != id {
+				kids = append(kids, k)
+			}
+		}
+		p1 := rapid.IntRange(0, len(kids)).Draw(t, "firstpos")
+		kids = append(append(append([]*ref.Node{}, kids[:p1]...), first), kids[p1:]...)
+		p2 := len(kids)
+		if rapid.IntRange(0, 2).Draw(t, "secondlast") == 0 {
+			p2 = rapid.IntRange(p1+1, len(kids)).Draw(t, "secondpos")
+		}
+		kids = append(append(append([]*ref.Node{}, kids[:p2]...), second), kids[p2:]...)
+		sec.Kids = kids
+		f, _ := tree.Bytes()
+		return f, "repeated-property"
 	case k < 70: // (iv) every type nibble on a body valid for another type
 		_, f, _, _ := genValidFrame(t, false)
 		g := append([]byte(nil), f...)
